@@ -1432,6 +1432,9 @@ pub fn gen_snapgrid(seed: u64, idx: u64, backend: Backend, entry: Entry) -> SeqP
     ops_v.push(Op::GetSnapshot { c: 0 });
     ops_v.push(Op::AddSnapshot { c: 0, v: varg, pay: pay(&mut r), ch: Chunking::Whole });
     ops_v.push(Op::GetSnapshot { c: 0 });
+    // and the outcome survives a reopen
+    ops_v.push(Op::Restart);
+    ops_v.push(Op::GetSnapshot { c: 0 });
     SeqPlan {
         seed,
         backend,
@@ -1514,6 +1517,8 @@ pub fn gen_parentgrid(seed: u64, idx: u64, backend: Backend, entry: Entry) -> Se
     };
     ops_v.push(Op::GetChild { c: 0, parent: parg.clone() });
     ops_v.push(Op::AddVersion { c: 0, parent: parg.clone(), pay: pay(&mut r), ch: Chunking::Whole });
+    ops_v.push(Op::GetChild { c: 0, parent: parg.clone() });
+    ops_v.push(Op::Restart);
     ops_v.push(Op::GetChild { c: 0, parent: parg });
     SeqPlan {
         seed,
